@@ -28,10 +28,10 @@ git apply -R $SRC/patch.diff
 if (cd $WT && eval "$DEMO_CMD") > $SRC/demo_without.log 2>&1; then res "demo_passes_without_change=true"; else res "demo_passes_without_change=false"; fi
 cd /; git -C /repo worktree remove --force $WT
 # run the check against a separate checkout with the change applied (VERIF_REPO; /repo itself stays untouched)
-R2=/tmp/seed/repo2
+R2=${SEED_REPO:-/tmp/seed/repo2}; V2=${SEED_VERIF:-/tmp/seed/verif2}
 git -C $R2 checkout -q -- . ; git -C $R2 clean -fdq
 cd $R2 && git apply $SRC/patch.diff || { res "apply_to_repo2=false"; exit 4; }
-cd /tmp/seed/verif2 && VERIF_REPO=$R2 ./check $ID $TIER > $SRC/check_$TIER.log 2>&1; rc=$?
+cd $V2 && VERIF_REPO=$R2 ./check $ID $TIER > $SRC/check_$TIER.log 2>&1; rc=$?
 git -C $R2 checkout -q -- . ; git -C $R2 clean -fdq
 res "check_${TIER}_exit=$rc"
 grep -c "^VIOLATION" $SRC/check_$TIER.log | sed "s/^/violations=/" | tee -a $SRC/confirm.txt
